@@ -160,6 +160,27 @@ def engine_class(node, flags, is_bytes):
     return got
 
 
+_cat_cache: dict = {}
+
+
+def category_intervals(cat, flags):
+    """Intervals of all code points in an sre CATEGORY (\\d, \\w, \\s and negations), decided by the real engine once per process."""
+    key = (str(cat), flags & (re.A | re.U))
+    r = _cat_cache.get(key)
+    if r is None:
+        st = sp.State()
+        st.flags = (flags & re.A) | (0 if flags & re.A else re.U)
+        st.str = ''
+        pat = scomp.compile(sp.SubPattern(st, [(sc.IN, [(sc.CATEGORY, cat)])]), st.flags)
+        hits = []
+        for base in range(0, MAXCP + 1, 0x10000):
+            chunk = ''.join(map(chr, range(base, min(base + 0x10000, MAXCP + 1))))
+            hits.extend(ord(x) for x in pat.findall(chunk))
+        r = runs(hits)
+        _cat_cache[key] = r
+    return r
+
+
 def node_intervals(node, flags):
     """Exact accepted intervals over 0..MAXCP for a single-char node in case-sensitive str mode."""
     op, av = node
@@ -179,6 +200,8 @@ def node_intervals(node, flags):
                 ivs.append((a, a))
             elif o is sc.RANGE:
                 ivs.append((a[0], a[1]))
+            elif o is sc.CATEGORY:
+                ivs.extend(category_intervals(a, flags))
             else:
                 raise NotEncodable(f'class item {o}')
         ivs = normalise(ivs)
@@ -376,27 +399,41 @@ class RxEnc:
         self.keep.append(p)
         return p
 
-    def full(self, rx):
-        """Formula for `re.compile(rx).fullmatch(s) is not None`."""
+    def full(self, rx, method='fullmatch'):
+        """Formula for `re.compile(rx).<method>(s) is not None` (fullmatch: whole string; match: anchored at 0, any end)."""
         p = self.parse(rx)
         fl = p.state.flags
         r = self.seq(list(p), 0, fl)
         out = FALSE
         for k, c in r.items():
-            out = OR(out, AND(c, self.s.len_eq(k)))
+            if method == 'fullmatch':
+                out = OR(out, AND(c, self.s.len_eq(k)))
+            elif method == 'match':
+                out = OR(out, AND(c, self.s.len_ge(k)))
+            else:
+                raise NotEncodable(f'regex method {method}')
         return out
 
-    def any_full(self, rxs):
+    def any_full(self, rxs, method='fullmatch'):
         out = FALSE
         for rx in rxs:
-            out = OR(out, self.full(rx))
+            out = OR(out, self.full(rx, method))
         return out
 
     def matcher(self, include, exclude):
-        """WcRegexp semantics without REALPATH: non-empty, some include, no exclude."""
-        f = AND(self.s.len_ge(1), self.any_full(include))
+        """WcRegexp semantics without REALPATH: non-empty, some include, no exclude - consulting each regex with the method the
+        real wrapper (_wcmatch._Match.match) is observed to call on this run."""
+        mi, me = wrapper_methods()
+        f = AND(self.s.len_ge(1), self.any_full(include, mi))
         if exclude:
-            f = AND(f, z3.Not(self.any_full(exclude)))
+            f = AND(f, z3.Not(self.any_full(exclude, me)))
+        return f
+
+    def matcher_fullmatch(self, include, exclude):
+        """Statement-level meaning of a translate() result: non-empty name fully matches some include and no exclude regex."""
+        f = AND(self.s.len_ge(1), self.any_full(include, 'fullmatch'))
+        if exclude:
+            f = AND(f, z3.Not(self.any_full(exclude, 'fullmatch')))
         return f
 
     def side_constraints(self):
@@ -445,3 +482,33 @@ def rx_of(p):
     if p.flags == default:
         return p.pattern
     return (p.pattern, p.flags)
+
+
+_methods = None
+
+
+def wrapper_methods():
+    """Which regex method the real non-REALPATH matcher calls on include / exclude patterns (observed with spy objects)."""
+    global _methods
+    if _methods is None:
+        from wcmatch import _wcmatch as M
+
+        class Spy:
+            pattern = 'spy'
+
+            def __init__(self):
+                self.used = []
+
+            def __getattr__(self, name):
+                if name in ('fullmatch', 'match', 'search'):
+                    def f(s, *a, **k):
+                        self.used.append(name)
+                        return object()
+                    return f
+                raise AttributeError(name)
+        a, b = Spy(), Spy()
+        M._Match('name', (a,), (b,), False, False, False).match()
+        if len(a.used) != 1 or len(b.used) != 1:
+            raise NotEncodable(f'matcher wrapper consulted its regexes unexpectedly: {a.used} {b.used}')
+        _methods = (a.used[0], b.used[0])
+    return _methods
